@@ -5,38 +5,54 @@ Oracle: metamorphic relation on the real code under the block-boundary normalise
                      second round trip is a fixed point under N          [rt2]
                      the same for subtrees / child lists / strings passed to node_to_wikitext directly
                      [sub], [list], [string: literal [[ ]] must come back as text, never as a LINK].
-Workload: AST documents from the block/inline grammar (vf.gen.c19_docs, depth 1..4), the older
-string grammar (vf.gen.docs), random bracket strings, bounded-exhaustive bracket strings.
-Violations are delta-minimised on the AST and signed with the *first structural difference*
-(what changed, in / next to which node kind).
+Workload: AST documents from the block/inline grammar (vf.gen.c19_docs, depth 1..4), random bracket
+strings, bounded-exhaustive bracket strings.
+Signatures: a failed relation is first *explained*: the item is re-serialised through node_handler_fn with
+one suspected emitter replaced by the form the input grammar uses (or the protection marker is deleted
+where the parser keeps it verbatim); the smallest set of such compensations that makes the relation
+hold names the mechanism(s).  What no compensation explains is signed with the first structural
+difference that is left after all applicable compensations (what changed, next to which node kind) and
+its witness is delta-minimised on the AST.
 """
 from __future__ import annotations
 
 import itertools
+import os
 import random
 import re
 
 from vf.core.obs import Obs, cpu_guard, CpuBudget, exc_sig
 from vf.core import anchors
-from vf.ref.c19_norm import N, N_list, N_node, first_diff, kinds_of, BLOCK, BRACE, MARK
+from vf.ref.c19_norm import N_list, N_node, first_diff, kinds_of, BRACE, MARK
 from vf.gen import c19_docs as G
 
 LEVEL = "exploration"
-RULE = ("documents: AST grammar (sections 1-6, * # : ; lists incl. nested and definition lists, tables with/without "
-        "attributes, captions, same-line cells and cells starting with a blank, bold/italic, links with trails, external "
-        "links, bare URLs, templates with named/positional args, parser functions, {{{args}}}, inline and block HTML with "
-        "URL-safe attribute values, void tags, <pre>, leading-blank lines, magic words, nowiki, literal [[ ]] [ ] text) "
-        "at depth 1..4, plus the string grammar of vf.gen.docs; every document is checked whole, then up to 6 "
-        "self-standing subtrees and 2 child lists of its tree are passed to node_to_wikitext directly; strings: random "
-        "token strings over words and bracket runs, and ALL strings over {[,],a} up to length 8 (quick: 7) and over "
-        "{[,],a,|,blank} up to length 5. non-trivial = distinct document whose tree has >= 3 node kinds, or distinct "
-        "string containing [[ or ]]")
+RULE = ("documents: AST grammar vf.gen.c19_docs (sections 1-6 with inline titles, * # : ; lists incl. nested, one-line and "
+        "two-line definition lists, tables with/without table/row/cell/caption attributes, captions, same-line (|| !!) cells, "
+        "cells and captions starting with a blank, empty cells, bold/italic, links with text and trails, external links, bare "
+        "URLs, templates with named/positional/empty args, parser functions, {{{args}}}, inline and block HTML with URL-safe "
+        "attribute values, block HTML containing blocks, void tags, <pre>, leading-blank lines, magic words, nowiki, literal "
+        "[[ ]] [ ] text) at depth 1..4 (i mod 4); every document is checked whole (rt1, rt2), then up to 6 self-standing "
+        "subtrees and 2 child lists of its tree are passed to node_to_wikitext directly; strings passed directly: random "
+        "token strings over words and bracket runs, and ALL strings over {[,],a} up to length 7 (thorough: 8) and all strings "
+        "over {[,],a,|,blank} up to length 5 that contain | or a blank. non-trivial = distinct document whose tree has >= 3 "
+        "node kinds, or distinct string containing [[ or ]]")
 ASSUMPTIONS = [
     "attribute values are URL-safe ([A-Za-z0-9_.~-]) as the statement restricts; other values are not generated",
     "child lists are only passed directly when they start with a node or an alphanumeric character (a list that starts "
-    "with a blank or a list/heading marker means something else at line start than it did inside its parent)",
+    "with a blank or a list/heading marker means something else at line start than it did inside its parent), and never "
+    "the children of PRE/PREFORMATTED (verbatim content)",
     "subtrees passed directly are of self-standing kinds (not LIST_ITEM / TABLE_ROW / TABLE_CELL / TABLE_CAPTION, which "
-    "are not wikitext on their own)",
+    "are not wikitext on their own) and are not taken from inside brace arguments (text there is less parsed than at top level)",
+    "the fixed-point clause (rt2) is judged on documents whose first round trip held; after a failed first trip the "
+    "second one starts from a damaged tree and would only restate the first failure",
+    "grammar restrictions that keep documents unambiguous (all are parser matters, not serialiser ones): a quote run is not "
+    "nested in a run of its own kind; literal [[ is never followed by ]] in one document (documents with literal openers "
+    "have no links and no openers inside brace arguments); a leading-blank line is followed by a list/rule/heading or "
+    "nothing and never directly follows a heading (the parser otherwise keeps later lines and tables inside PREFORMATTED, "
+    "or does not see the line as preformatted at all); a ||-style cell never follows a cell containing '=' (C03 finding)",
+    "mechanism names come from compensating re-serialisations through node_handler_fn (own code); they only NAME a "
+    "failure that the plain relation found, they never decide one",
     "per-case CPU budget 30 s (ITIMER_VIRTUAL) stands for 'returns'",
 ]
 WALL = {"quick": 600, "thorough": 3000}
@@ -56,6 +72,34 @@ def bare_able(node):
     return len(a) == 1 and len(a[0]) == 1 and isinstance(a[0][0], str) and re.match(r"(https?|ftp)://[\w./~-]+$", a[0][0]) is not None
 
 
+def url_in_bracket_context(x, K):
+    """ids of text-less URL nodes that sit where a bracketed form reads differently from the bare form:
+    inside a LINK argument, or after the opening bracket of an external link whose text they are
+    (the parser leaves '[scheme://... ' as a string in front of them)."""
+    out = set()
+    stack = [(x, False)]
+    while stack:
+        n, inlink = stack.pop()
+        if isinstance(n, str):
+            continue
+        if isinstance(n, (list, tuple)):
+            grps = [(n, inlink)]
+        else:
+            il = inlink or n.kind == K.LINK
+            grps = [(n.children, inlink)] + [(a, il) for a in n.largs] + ([(n.definition, inlink)] if n.definition else [])
+        for grp, il in grps:
+            opened = False
+            for c in grp:
+                if isinstance(c, str):
+                    if "[" in c or "]" in c:
+                        opened = c.rfind("[") > c.rfind("]")
+                    continue
+                if c.kind == K.URL and bare_able(c) and (il or opened):
+                    out.add(id(c))
+                stack.append((c, il))
+    return out
+
+
 def to_attrs_ref(node):
     """own attribute writer for the compensating handler (values are URL-safe in this workload)"""
     return " ".join(k if not v else '%s="%s"' % (k, v) for k, v in node.attrs.items())
@@ -67,20 +111,24 @@ ALL_KINDS = 26
 
 
 def floors(tier):
-    return {"oracle.rt1": 5000, "oracle.rt2": 5000, "oracle.sub": 5000, "oracle.list": 1000, "oracle.string": 3000,
-            "anchors.node_expand.to_wikitext": 10000, "anchors.node_expand.to_attrs": 1000,
-            "anchors.Wtp.node_to_wikitext": 10000, "anchors.Wtp.parse": 10000,
-            "sets.emitted_kinds": ALL_KINDS, "sets.subtree_kinds": 15, "sets.features": 50,
-            "counters.strings.exhaustive": 1000, "counters.protected-brackets-emitted": 100,
-            "counters.docs.with-literal-brackets": 50, "counters.docs.with-html-attrs": 100,
-            "counters.docs.with-list": 100, "counters.docs.with-table": 100,
-            "nontrivial": 3000}
+    return {"oracle.rt1": 15000, "oracle.rt2": 5000, "oracle.sub": 50000, "oracle.list": 15000, "oracle.string": 10000,
+            "anchors.node_expand.to_wikitext": 100000, "anchors.node_expand.to_wikitext.recurse": 1000000,
+            "anchors.node_expand.to_attrs": 100000, "anchors.Wtp.node_to_wikitext": 100000, "anchors.Wtp.parse": 100000,
+            "sets.emitted_kinds": ALL_KINDS, "sets.subtree_kinds": 20, "sets.childlist_parents": 6, "sets.features": 150,
+            "counters.strings.exhaustive": 5000, "counters.strings.random": 5000,
+            "counters.protected-brackets-emitted": 1000, "counters.docs.with-literal-brackets": 1000,
+            "counters.docs.with-html-attrs": 5000, "counters.docs.with-list": 5000, "counters.docs.with-table": 5000,
+            "counters.docs.with-template": 5000, "counters.docs.with-parserfn": 3000, "counters.docs.with-section": 5000,
+            "counters.depth.4": 3000, "nontrivial": 15000}
 
 
 def shards(tier, seed):
     n = 16
-    per = {"quick": 1250, "thorough": 62500}[tier]
+    per = {"quick": 1250, "thorough": 40000}[tier]
     ns = {"quick": 500, "thorough": 20000}[tier]
+    if os.environ.get("VERIF_C19_DOCS"):            # development aid: smaller run of the same code
+        per = int(os.environ["VERIF_C19_DOCS"])
+        ns = max(50, per // 3)
     return [{"seed": seed * 1000 + i, "n": per, "nstr": ns, "idx": i, "nsh": n, "tier": tier} for i in range(n)]
 
 
@@ -127,6 +175,7 @@ class Monitor:
         K = self.K
         QUOTE = (K.BOLD, K.ITALIC)
         sep_before = set()
+        bare = url_in_bracket_context(x, K) if "bare-url" in comps else set()
         if "quote-sep" in comps:
             # quote nodes that directly follow another quote node: their '' runs would merge
             stack = [x] if not isinstance(x, (list, tuple)) else [x]
@@ -148,12 +197,12 @@ class Monitor:
                 return node.sarg
             if k == K.LIST_ITEM and node.definition and "defn" in comps:
                 ch = list(node.children)
-                two_lines = bool(ch) and isinstance(ch[-1], str) and ch[-1].endswith("\n")
+                two_lines = bool(ch) and (ch[-1].endswith("\n") if isinstance(ch[-1], str) else ch[-1].kind == K.LIST)
                 return [node.sarg] + ch + [(node.sarg[:-1] if two_lines else "") + ":"] + list(node.definition)
             if k == K.TABLE_CAPTION and "caption" in comps:
                 a = self.to_attrs(node)
                 return ["\n|+" + (" " + a + " |" if a else "")] + list(node.children) + ["\n"]
-            if k == K.URL and "bare-url" in comps and bare_able(node):
+            if k == K.URL and id(node) in bare:
                 return list(node.largs[0])
             if id(node) in sep_before:
                 sep_before.discard(id(node))
@@ -165,9 +214,12 @@ class Monitor:
         K = self.K
         app = set()
         stack = [x]
+        brk = pre = brace = False
         while stack:
             n = stack.pop()
             if isinstance(n, str):
+                if "[[" in n or "]]" in n:
+                    brk = True
                 continue
             if isinstance(n, (list, tuple)):
                 grps = [n]
@@ -179,22 +231,26 @@ class Monitor:
                     app.add("defn")
                 elif k == K.TABLE_CAPTION:
                     app.add("caption")
-                elif k == K.URL and bare_able(n):
+                elif k == K.URL and bare_able(n) and "bare-url" not in app and url_in_bracket_context(x, K):
                     app.add("bare-url")
-                elif k == K.PRE and MARK in w:
-                    app.add("marker-pre")
-                elif k.name in BRACE and MARK in w:
-                    app.add("marker-args")
+                elif k == K.PRE:
+                    pre = True
+                elif k.name in BRACE:
+                    brace = True
                 grps = [n.children] + list(n.largs) + ([n.definition] if n.definition else [])
             for grp in grps:
                 prev = None
                 for c in grp:
+                    stack.append(c)
                     if not isinstance(c, str):
-                        stack.append(c)
                         if c.kind in (K.BOLD, K.ITALIC) and prev is not None and not isinstance(prev, str) \
                                 and prev.kind in (K.BOLD, K.ITALIC):
                             app.add("quote-sep")
                     prev = c
+        if brk and brace:
+            app.add("marker-args")
+        if brk and pre:
+            app.add("marker-pre")
         return [c for c in COMPS if c in app]
 
     def explain(self, x, w, whole):
